@@ -64,6 +64,12 @@ func NewFileCache[MetadataT any](cfg *config.Config, rootDir string, maxCacheSiz
 				}
 			}
 		},
+		getMetadata: func(key CacheKey) (*EntryMetadata[MetadataT], bool) {
+			c.mu.RLock()
+			defer c.mu.RUnlock()
+			meta, ok := c.entriesMetadata[key]
+			return meta, ok
+		},
 		getCacheSize: func() int64 {
 			return c.byteSize.Get()
 		},
